@@ -29,6 +29,7 @@ mod c15;
 mod c13;
 mod c08;
 mod c11;
+mod c11case;
 mod c12;
 
 use std::path::PathBuf;
